@@ -261,6 +261,25 @@ func (o OneOfSchema[KeyType]) validateMap(data map[string]any) (KeyType, Object,
 	// Validate that it has the discriminator field.
 	// If it doesn't, fail
 	// If it does, pass the non-discriminator fields into the ValidateCompatibility method for the object
+	selectedTypeIDAsserted, selectedSchema, err := o.selectMapMember(data)
+	if err != nil {
+		return nilKey, nil, err
+	}
+	cloneData := o.deleteDiscriminator(data)
+	err = selectedSchema.ValidateCompatibility(cloneData)
+	if err != nil {
+		return nilKey, nil, &ConstraintError{
+			Message: fmt.Sprintf(
+				"validation failed for OneOfSchema. Failed to validate as selected schema type '%T' from discriminator value '%v' (%s)",
+				selectedSchema, selectedTypeIDAsserted, err),
+		}
+	}
+	return selectedTypeIDAsserted, selectedSchema, nil
+}
+
+// selectMapMember finds the member a map selects with its discriminator field. It does not look at the other fields.
+func (o OneOfSchema[KeyType]) selectMapMember(data map[string]any) (KeyType, Object, error) {
+	var nilKey KeyType
 	selectedTypeID := data[o.DiscriminatorFieldNameValue]
 	if selectedTypeID == nil {
 		return nilKey, nil, &ConstraintError{
@@ -284,15 +303,6 @@ func (o OneOfSchema[KeyType]) validateMap(data map[string]any) (KeyType, Object,
 			Message: fmt.Sprintf(
 				"validation failed for OneOfSchema. Discriminator value '%v' is invalid. Expected one of: %v",
 				selectedTypeIDAsserted, o.getTypeValues()),
-		}
-	}
-	cloneData := o.deleteDiscriminator(data)
-	err := selectedSchema.ValidateCompatibility(cloneData)
-	if err != nil {
-		return nilKey, nil, &ConstraintError{
-			Message: fmt.Sprintf(
-				"validation failed for OneOfSchema. Failed to validate as selected schema type '%T' from discriminator value '%v' (%s)",
-				selectedSchema, selectedTypeIDAsserted, err),
 		}
 	}
 	return selectedTypeIDAsserted, selectedSchema, nil
@@ -383,7 +393,9 @@ func (o OneOfSchema[KeyType]) findUnderlyingType(data any) (KeyType, Object, err
 				Message: fmt.Sprintf("Invalid type for one-of type: '%T' expected map[string]any", data),
 			}
 		}
-		myKey, mySchemaObj, err := o.validateMap(dataMap)
+		// The value is an unserialized one. The caller validates or serializes it with the member found here, which is
+		// the check that applies to it; ValidateCompatibility is the check for raw data and is stricter for some types.
+		myKey, mySchemaObj, err := o.selectMapMember(dataMap)
 		if err != nil {
 			return nilKey, nil, err
 		}
